@@ -54,9 +54,10 @@ section
 variable {φ α ε κ β τ : Type} [Add α] [Sub α] [Mul α] [Div α] [Neg α] [Sc α] [LE α]
 variable (K : Orch.Kern φ α ε κ β τ (Vec α)) (c : Orch.Cfg) (A : Mat α) (v0 : β)
 
-/-- singular values after a successful `compute`: non-increasing, provided `sqrt` is monotone (true of `Real.sqrt` and of IEEE sqrt) -/
+/-- singular values after a successful `compute`: non-increasing, provided `x ↦ sqrt(max(x, 0))` is monotone (true of `Real.sqrt`
+    and of IEEE sqrt) -/
 theorem singular_values_sorted (hcfg : c.nev ≤ c.ncv) (hs : SortDesc K c)
-    (hmono : ∀ a b : α, a ≤ b → (Sc.sqrt a : α) ≤ Sc.sqrt b)
+    (hmono : ∀ a b : α, a ≤ b → (Sc.sqrt (clamp0 a) : α) ≤ Sc.sqrt (clamp0 b))
     (maxit : Nat) (tol : τ) (s : St φ α ε κ) (r : Nat) (h : (compute K c v0 maxit tol s).2 = .ok r) :
     (singular_values K c (compute K c v0 maxit tol s).1).Pairwise (fun a b => b ≤ a) := by
   obtain ⟨_, hout, hst, _⟩ := compute_ok K c v0 maxit tol s r h
